@@ -37,6 +37,7 @@ Record InvX (ex : option N) (s : server) : Prop := mkInv {
   inv_mcount : v_mcount s = nlen (filter mreader (v_sess s));
   inv_mwr : v_mwriters s = true <-> 0 < v_mcount s;
   inv_readers : forall rid r, In rid (v_readers s) -> find_sess rid (v_sess s) = Some r -> s_tr r <> None;
+  inv_rfresh : forall rid, In rid (v_readers s) -> rid < v_next s;
   inv_tcp : TcpOK ex (v_conns s) (v_sess s) }.
 
 Definition Inv (s : server) : Prop := InvX None s.
@@ -116,6 +117,7 @@ Proof.
     + rewrite <- E in Hf. rewrite find_put_sess_same in Hf by exact Hid. inv Hf. apply Hrs. exact Hrid.
     + rewrite find_put_sess_other in Hf by (rewrite E; exact Hn).
       destruct (Hr rid Hrid) as [?|Ho]; [contradiction|]. eapply (inv_readers ex s I); eassumption.
+  - intros rid Hrid. destruct (Hr rid Hrid) as [->|Ho]; [apply I; exact HI | apply I; exact Ho].
   - intros c Hcn Hex Htc. destruct (inv_tcp ex s I c Hcn Hex Htc) as (sc & Hsc & Hcs & Htcp & Hin & Hrun & Htr).
     destruct (N.eq_dec (s_id sc) (s_id ss)) as [Heq|Hn].
     + assert (sc = ss) by (eapply NoDup_id_eq; try eassumption; apply I). subst sc.
@@ -234,6 +236,7 @@ Proof.
   - intros rid r Hrid Hf. destruct (N.eq_dec rid (s_id ss)) as [->|Hn].
     + rewrite find_del_sess_same in Hf. discriminate.
     + rewrite find_del_sess_other in Hf by exact Hn. eapply (inv_readers ex s I); [apply Hrd|]; eassumption.
+  - intros rid Hrid. apply I. apply Hrd. exact Hrid.
   - intros c Hcn Hex Htc. apply filter_In in Hcn. destruct Hcn as [Hcn Hnm].
     destruct (inv_tcp ex s I c Hcn Hex Htc) as (sc & Hsc & Hcs & Htcp & Hin & Hrun & Htr).
     exists sc. repeat split; try assumption. apply In_del_sess. split; [exact Hsc|].
